@@ -123,7 +123,22 @@ def run_kernel(kernel: str, repo: str, workdir: str, rlimit=None, timeout=900, c
     for d in diags:
         # only spans inside the emitted file carry line numbers that mean anything for tags / function names
         # (a failed std precondition has its label span in vstd's std_specs/*.rs)
-        spans = [s for s in d['spans'] if os.path.basename(s.get('file_name', '')) == os.path.basename(out_rs)] or d['spans']
+        def in_file(sp):
+            return os.path.basename(sp.get('file_name', '')) == os.path.basename(out_rs)
+
+        def resolve(sp):
+            # a span inside a macro body (unreachable!(), panic!, assert!) lives in core/std: follow its expansion
+            # chain back to the call site in the emitted file
+            cur, hops = sp, 0
+            while cur is not None and not in_file(cur) and hops < 12:
+                exp = cur.get('expansion')
+                cur = exp.get('span') if exp else None
+                hops += 1
+            if cur is not None and in_file(cur):
+                return dict(sp, file_name=cur['file_name'], line_start=cur['line_start'], line_end=cur.get('line_end', cur['line_start']))
+            return sp
+        spans = [resolve(s) for s in d['spans']]
+        spans = [s for s in spans if in_file(s)] or spans
         lab = [s for s in spans if s.get('label') and 'failed' in s['label']]
         prim = [s for s in spans if s.get('is_primary')]
         key = (lab or prim or spans)[0]
